@@ -302,6 +302,10 @@ pub fn ev(code: &'static str, a: i64, b: i64) -> u64 {
     let s = seq();
     let t = me() as u32;
     w().events.push(Event { seq: s, task: t, code, a, b });
+    if std::env::var_os("DESIM_TRACE").is_some() {
+        let st: Vec<String> = w().objs.iter().map(|o| format!("{:?}", o.queue.as_ref().and_then(|q| q.verif_peek()))).collect();
+        eprintln!("#{} task{} {} {} {}   queues {}", s, t, code, a, b, st.join(" "));
+    }
     s
 }
 
@@ -630,7 +634,9 @@ pub fn gate_wake_stale(g: usize) {
     let wakers = std::mem::take(&mut world.gates[g].stale);
     for wk in wakers {
         w().cover.stale_wakes += 1;
+        ev("stale_wake", g as i64, 0);
         wk.wake();
+        ev("stale_wake_done", g as i64, 0);
     }
 }
 
